@@ -109,4 +109,52 @@ theorem silent_step (s : St) (e : Ev) (h : Inv s) (hcl : s.closing = true)
                · exact ⟨rfl, hcl, Or.inl rfl⟩
                · rename_i hx; exact absurd hcl hx)
 
+theorem dropTransport_open_nil (s : St) (h : s.open_ = []) : (dropTransport s).open_ = [] := by
+  unfold dropTransport
+  split
+  · exact h
+  · split <;> simp [emit, h]
+
+/-- while `closing` is set and nothing is open, nothing opens unless a trigger arrives -/
+theorem closed_step (s : St) (e : Ev) (h : Inv s) (hcl : s.closing = true)
+    (he : e.isTrigger = false ∨ s.shutdown = true) (ho : s.open_ = []) : (step s e).open_ = [] := by
+  have hnl := h.clo hcl
+  cases e with
+  | adv dt =>
+    simp only [step]
+    rw [advanceTo_idle _ _ _ hnl]
+    exact ho
+  | ensure id own =>
+    rcases he with he | he
+    · simp [Ev.isTrigger] at he
+    · have hs : step s (.ensure id own) = emit s (.waiter id .ok s.now) := by simp [step, he]
+      rw [hs]; exact ho
+  | cancelW id => exact ho
+  | soon =>
+    rcases he with he | he
+    · simp [Ev.isTrigger] at he
+    · have hs : step s .soon = s := by simp [step, he]
+      rw [hs]; exact ho
+  | descr hs =>
+    rcases he with he | he
+    · simp [Ev.isTrigger] at he
+    · have hs' : step s (.descr hs) = s := by simp [step, he]
+      rw [hs']; exact ho
+  | close =>
+    simp only [step, closeConn]
+    have : ({ s with closing := true } : St) = s := by
+      cases s; simp_all
+    rw [this, stopConnector_idle s hnl]
+    exact dropTransport_open_nil s ho
+  | shutdown =>
+    simp only [step, closeConn]
+    have hnl' : ({ s with shutdown := true, closing := true } : St).conn.live = false := hnl
+    rw [stopConnector_idle _ hnl']
+    exact dropTransport_open_nil _ ho
+  | pushTcp o => exact ho
+  | pushVer v => exact ho
+  | drop c =>
+    have : step s (.drop c) = s := by simp [step, ho]
+    rw [this]; exact ho
+
 end HapVerif.Reconnect
